@@ -198,8 +198,13 @@ func ruleSpoolClose(r *core.Reporter) {
 		r.Undecided("postprocessor.worker/closeBodies", "", "worker not found")
 	} else {
 		r.Analysed(w.Fn)
+		closeBodyFn := p.Func(rel(pkgPost), "closeBody")
 		cb := func(in ssa.Instruction) bool {
-			return ir.IsPlainCallTo(in, pkgPost+".closeBodies") && ir.SameValue(ir.AsCall(in).Args[0], w.Seed)
+			if ir.IsPlainCallTo(in, pkgPost+".closeBodies") && ir.SameValue(ir.AsCall(in).Args[0], w.Seed) {
+				return true
+			}
+			// closeBodies folded into the worker: seed.Traverse(closeBody) / seed.Traverse(func(n){ closeBody(n) })
+			return traversesWith(in, w.Seed, closeBodyFn)
 		}
 		outs := map[string]bool{}
 		fwd := forwardEvent(w, outs)
@@ -225,12 +230,27 @@ func ruleSpoolClose(r *core.Reporter) {
 	cbs := p.Func(rel(pkgPost), "closeBodies")
 	cb1 := p.Func(rel(pkgPost), "closeBody")
 	trav := p.Func(rel(pkgModels), "(*Item).Traverse")
+	if cbs == nil && cb1 != nil && trav != nil && w != nil {
+		// folded into the worker by hand: the traversal is looked for there
+		found := false
+		for _, f := range withAnon(w.Fn) {
+			allInstrs(f, func(in ssa.Instruction) {
+				if traversesWith(in, nil, cb1) {
+					found = true
+				}
+			})
+		}
+		if found {
+			r.Held("closeBodies", 1, "Traverse(closeBody) over the seed's tree (in the worker itself)")
+			cbs = w.Fn
+		}
+	}
 	if cbs == nil || cb1 == nil || trav == nil {
 		r.Undecided("closeBodies", "", "closeBodies/closeBody/Traverse not found")
 		return
 	}
 	r.Analysed(cbs, cb1, trav)
-	okT := false
+	okT := w != nil && cbs == w.Fn
 	for _, f := range withAnon(cbs) {
 		allInstrs(f, func(in ssa.Instruction) {
 			if ir.IsPlainCallTo(in, pkgPost+".closeBody") && f != cbs {
@@ -255,7 +275,9 @@ func ruleSpoolClose(r *core.Reporter) {
 		return strings.HasSuffix(ir.Path(v), ".GetURL().GetBody()")
 	}
 	_ = bodyVal
-	if okT && callsTraverse {
+	if w != nil && cbs == w.Fn {
+		// already recorded above
+	} else if okT && callsTraverse {
 		r.Held("closeBodies", 1, "Traverse(closeBody) over the seed's tree")
 	} else {
 		r.Violated("closeBodies", fnPos(p, cbs), "closeBodies no longer applies closeBody to every node of the tree")
@@ -620,4 +642,36 @@ func ruleBucketBound(r *core.Reporter) {
 	} else {
 		r.Held("evictLFU/unfiltered", 1, "every bucket is a candidate; the least used one is deleted whenever the table is non-empty")
 	}
+}
+
+// traversesWith: `in` is X.Traverse(f) where f is closeFn itself or a closure that calls it on its argument;
+// when root is non-nil, X must be root.
+func traversesWith(in ssa.Instruction, root ssa.Value, closeFn *ssa.Function) bool {
+	if closeFn == nil || !ir.IsPlainCallTo(in, "(*"+pkgModels+".Item).Traverse") {
+		return false
+	}
+	c := ir.AsCall(in)
+	if len(c.Args) != 2 || (root != nil && !ir.SameValue(c.Args[0], root)) {
+		return false
+	}
+	var f *ssa.Function
+	switch x := ir.Strip(c.Args[1]).(type) {
+	case *ssa.Function:
+		f = x
+	case *ssa.MakeClosure:
+		f, _ = x.Fn.(*ssa.Function)
+	}
+	if f == nil {
+		return false
+	}
+	if f == closeFn {
+		return true
+	}
+	ok := false
+	allInstrs(f, func(y ssa.Instruction) {
+		if cc, isC := y.(*ssa.Call); isC && ir.CalleeOf(cc.Common()) == closeFn && len(f.Params) > 0 && len(cc.Call.Args) > 0 && ir.SameValue(cc.Call.Args[0], f.Params[len(f.Params)-1]) {
+			ok = true
+		}
+	})
+	return ok
 }
